@@ -316,7 +316,8 @@ class Statement(object):
             # The operand field is as wide as the instruction reserves, however small the address is
             resolved = self.code_pkg.additional
             operand_bytes = self.code_pkg.size - self.code_pkg.op_code.byte_len() - self.code_pkg.post_byte.byte_len()
-            if operand_bytes > 0 and not resolved.is_negative() and resolved.int >= (1 << (8 * operand_bytes)):
+            if operand_bytes > 0 and (resolved.int > 0x80 and operand_bytes == 1 if resolved.is_negative()
+                                      else resolved.int >= (1 << (8 * operand_bytes))):
                 raise TranslationError("[{}] does not fit in {} bits".format(
                     self.original_operand.operand_string, 8 * operand_bytes), self)
             self.code_pkg.additional = NumericValue(
